@@ -401,3 +401,173 @@ pub mod btree {
         }
     }
 }
+
+/// Page-ownership dump of a whole database: catalog trees, every visible relation's tree,
+/// overflow chains and the free list.
+pub mod dbpages {
+    use crate::{
+        Database,
+        io::pager::SharedPager,
+        schema::{base::Relation, meta_table_schema},
+        storage::{
+            BtreeMetadata,
+            core::traits::BtreeOps,
+            page::{BtreePage, OverflowPage},
+            tuple::{TupleReader, TupleRef},
+        },
+        tree::{accessor::BtreeReadAccessor, bplustree::Btree},
+        types::PageId,
+    };
+
+    #[derive(Clone, Debug, Default)]
+    pub struct TreePages {
+        pub name: String,
+        pub root: u64,
+        /// tree nodes (interior and leaf pages)
+        pub nodes: Vec<u64>,
+        /// (leaf page, cell index, chain) for every leaf cell with an overflow chain
+        pub leaf_chains: Vec<(u64, usize, Vec<u64>)>,
+        /// the same for interior cells (dividers)
+        pub interior_chains: Vec<(u64, usize, Vec<u64>)>,
+    }
+
+    #[derive(Clone, Debug, Default)]
+    pub struct DbPages {
+        pub total_pages: u64,
+        pub free_head: Option<u64>,
+        pub free_tail: Option<u64>,
+        pub free_list: Vec<u64>,
+        pub trees: Vec<TreePages>,
+        pub error: Option<String>,
+    }
+
+    fn walk(pager: &SharedPager, id: PageId, depth: usize, limit: u64, t: &mut TreePages) -> Result<(), String> {
+        if depth > 40 || t.nodes.len() as u64 > limit + 2 {
+            return Err(format!("walk of tree '{}' does not terminate at page {id}", t.name));
+        }
+        let info = pager.write().with_page::<BtreePage, _, _>(id, |p| {
+            let cells: Vec<(Option<PageId>, bool, Option<PageId>)> = (0..p.num_slots()).map(|i| { let c = p.cell(i); (c.metadata().left_child(), c.metadata().is_overflow(), c.overflow_page()) }).collect();
+            (p.is_leaf(), p.metadata().right_child(), cells)
+        }).map_err(|e| format!("page {id} of tree '{}' unreadable: {e}", t.name))?;
+        let (is_leaf, right, cells) = info;
+        t.nodes.push(id);
+        for (i, (_, is_ovf, ovf)) in cells.iter().enumerate() {
+            if *is_ovf {
+                let mut chain = vec![];
+                let mut cur = *ovf;
+                while let Some(pg) = cur {
+                    if chain.len() as u64 > limit + 2 {
+                        return Err(format!("overflow chain in page {id} of tree '{}' does not terminate", t.name));
+                    }
+                    chain.push(pg);
+                    cur = pager.write().with_page::<OverflowPage, _, _>(pg, |o| o.next()).map_err(|e| format!("overflow page {pg} unreadable: {e}"))?;
+                }
+                if is_leaf { t.leaf_chains.push((id, i, chain)) } else { t.interior_chains.push((id, i, chain)) }
+            }
+        }
+        if !is_leaf {
+            for (left, _, _) in &cells {
+                if let Some(c) = left {
+                    walk(pager, *c, depth + 1, limit, t)?;
+                }
+            }
+            if let Some(r) = right {
+                walk(pager, r, depth + 1, limit, t)?;
+            }
+        }
+        Ok(())
+    }
+
+    pub fn dump(db: &Database) -> DbPages {
+        let mut d = DbPages::default();
+        let pager = db.pager().clone();
+        let last_created;
+        {
+            let p = pager.read();
+            let h = p.header_unchecked();
+            d.total_pages = h.total_pages;
+            d.free_head = h.first_free_page;
+            d.free_tail = h.last_free_page;
+            last_created = h.last_created_transaction;
+        }
+        let mut cur = d.free_head;
+        while let Some(p) = cur {
+            if d.free_list.len() as u64 > d.total_pages + 2 {
+                d.error = Some("free list does not terminate".into());
+                return d;
+            }
+            d.free_list.push(p);
+            match pager.write().with_page::<OverflowPage, _, _>(p, |o| o.next()) {
+                Ok(n) => cur = n,
+                Err(e) => {
+                    d.error = Some(format!("free page {p} unreadable: {e}"));
+                    return d;
+                }
+            }
+        }
+        // relations visible to a snapshot taken now (no transaction is registered for it)
+        let snapshot = match db.coordinator().snapshot(last_created) {
+            Ok(s) => s,
+            Err(e) => {
+                d.error = Some(format!("snapshot: {e}"));
+                return d;
+            }
+        };
+        let (min_keys, siblings) = {
+            let p = pager.read();
+            (p.min_keys_per_page(), p.num_siblings_per_side())
+        };
+        let schema = meta_table_schema();
+        let mut rels: Vec<(String, PageId)> = vec![];
+        {
+            let mut meta: Btree<BtreeReadAccessor> = Btree::new(1, pager.clone(), min_keys, siblings).with_accessor(BtreeReadAccessor::new());
+            let empty = match meta.is_empty() {
+                Ok(e) => e,
+                Err(e) => {
+                    d.error = Some(format!("meta table unreadable: {e}"));
+                    return d;
+                }
+            };
+            if !empty {
+                let it = match meta.iter_forward() {
+                    Ok(i) => i,
+                    Err(e) => {
+                        d.error = Some(format!("meta table scan: {e}"));
+                        return d;
+                    }
+                };
+                let positions: Vec<_> = it.collect();
+                let mut meta2: Btree<BtreeReadAccessor> = Btree::new(1, pager.clone(), min_keys, siblings).with_accessor(BtreeReadAccessor::new());
+                for pos in positions {
+                    let Ok(pos) = pos else { continue };
+                    let r = meta2.with_cell_at(pos, |bytes| {
+                        let reader = TupleReader::from_schema(&schema);
+                        match reader.parse_for_snapshot(bytes, &snapshot) {
+                            Ok(Some(layout)) => TupleRef::new(bytes, layout).to_row_with(&schema).ok().map(Relation::from_meta_table_row).map(|r| (r.name().to_string(), r.root())),
+                            _ => None,
+                        }
+                    });
+                    if let Ok(Some(x)) = r {
+                        rels.push(x);
+                    }
+                }
+            }
+        }
+        let mut roots: Vec<(String, PageId)> = vec![("<meta table>".into(), 1), ("<meta index>".into(), 2)];
+        roots.extend(rels);
+        for (name, root) in roots {
+            if root == 0 || root >= d.total_pages {
+                d.error = Some(format!("relation '{name}' has root page {root} outside the file"));
+                return d;
+            }
+            let mut t = TreePages { name, root, ..Default::default() };
+            if let Err(e) = walk(&pager, root, 0, d.total_pages, &mut t) {
+                d.error = Some(e);
+                d.trees.push(t);
+                return d;
+            }
+            d.trees.push(t);
+        }
+        d
+    }
+}
